@@ -31,6 +31,10 @@ Next ==
 
 Spec == Init /\ [][Next]_vars
 
+(* with the leap of a clock (GitBug!ClockLeap): the design's counterexample to AllReadable *)
+LeapNext == Next \/ \E r \in Replica : ClockLeap(r)
+LeapSpec == Init /\ [][LeapNext]_vars
+
 (* only synchronisation steps: used for the liveness clause of C01 *)
 SyncNext ==
   \/ \E r \in Replica, m \in Remote : (\E b \in Bugs : ref[r][b] # 0) /\ Push(r, m)
